@@ -156,7 +156,9 @@ def run(ctx):
     from checks import c09, c11
     c09.conc_replay(ctx, tag="lockq", max_paths_quick=600)
     rpp = vlib.compile_harness(os.path.join(vlib.VERIF, "harness/pool_replay.cpp"), "pool_replay", extra_flags=["-rdynamic"])
-    for k, (script, nw) in enumerate([(["co", "fn", "stop"], 1), (["det", "stop", "fn", "co"], 2), (["fn", "wst", "co"], 2)]):
+    # ("d:stop": a second client thread calling stop() -- two overlapping stop() calls, see c11.split_script)
+    for k, (script, nw) in enumerate([(["co", "fn", "stop"], 1), (["det", "stop", "fn", "co"], 2), (["fn", "wst", "co"], 2),
+                                      (["co", "stop", "d:stop"], 1)]):
         c11.run_script(ctx, rpp, script, nw, "lockp%d" % k, 300 if ctx.quick else 3000)
     # scheduler in thread mode (client thread vs. the scheduler's own worker; virtual clock): same argument
     from checks import c12thread
